@@ -5,7 +5,7 @@ CONSTANTS
   PlaceholderTypedAsCookie = FALSE
   UidChecked = TRUE
   AdWhole = TRUE
-  Hardened = TRUE
+  Hardened = FALSE
   StopAtAuth = TRUE
   CtLenExact = TRUE
   LenChoices <- LenChoicesExh
